@@ -213,6 +213,22 @@ def IoChain : Term → List ScriptPiece → Prop
   | _, [] => True
   | t, p :: more => (∃ k, t = .ioerr k) ∧ IoChain p.2 more
 
+/-! ## `write_all` over a transport that takes fewer bytes than offered
+
+`send` / `send_list` render the request into one buffer and hand it to `write_all`, which calls
+`write` until the buffer is used up (a write of 0 bytes is the `WriteZero` error). `caps` = how many
+bytes the transport accepts on the 1st, 2nd, … call (when the list is used up it accepts everything).
+The task model (`Mpd/Loop.lean`) writes atomically; `writeAll_flatten` (Lemmas/Flaky.lean) is why that
+is a sound abstraction: whatever the capacities, the pieces written are, in order, exactly the buffer. -/
+
+/-- the pieces `write_all` writes; `none` = `WriteZero` -/
+def writeAll : List Nat → Bytes → Option (List Bytes)
+  | [], buf => some (if buf.isEmpty then [] else [buf])
+  | c :: cs, buf =>
+    if buf.isEmpty then some []
+    else if c = 0 then none
+    else (writeAll cs (buf.drop c)).map (buf.take c :: ·)
+
 /-! ## connect -/
 
 inductive ConnectResult where
